@@ -38,9 +38,11 @@ def tag_sets(tier, seed):
         out += ["[ii]", "s[b]T", "bsb", "sss", "hbs", "[sS]b"]
     else:
         out += [a + b for a in ALL_TAGS for b in ALL_TAGS]
-        rep = "ihsbT[]"
-        out += [a + b + c for a in rep for b in rep for c in rep]
-        for _ in range(60):
+        rep = "ihsbT["
+        tri = [a + b + c for a in rep for b in rep for c in rep]
+        rnd.shuffle(tri)
+        out += tri[:80]
+        for _ in range(40):
             out.append("".join(rnd.choice(ALL_TAGS) for _ in range(rnd.randint(4, 10))))
     seen, res = set(), []
     for t in out:
